@@ -67,9 +67,12 @@ GAddPeer(p) == /\ p \in gone /\ gone' = gone \ {p}
 (* C15: policy changes and soft resets; a reset targets one neighbour or all of them *)
 Targets == {{p} : p \in Peers} \cup {Peers}
 TName(T) == IF T = Peers THEN "all" ELSE CHOOSE p \in T : TRUE
-GSetImp    == LET pol == RandomElement(Pols) IN
+(* the per-path policy rejA is drawn more often: it is the one that separates the paths of a prefix *)
+PolSeq == <<"acc", "rejx1", "medx1", "ppx1", "rejA", "rejA", "rejA">>
+RandomPol == PolSeq[RandomElement(1..Len(PolSeq))]
+GSetImp    == LET pol == RandomPol IN
                 PSetImp(pol) /\ Log([ev |-> "SetImp", pol |-> pol]) /\ UNCHANGED <<stalled, held, gone>>
-GSetExp    == LET pol == RandomElement(Pols) IN
+GSetExp    == LET pol == RandomPol IN
                 PSetExp(pol) /\ Log([ev |-> "SetExp", pol |-> pol]) /\ UNCHANGED <<stalled, held, gone>>
 GResetIn   == LET T == RandomElement(Targets) IN
                 PResetIn(T) /\ Log([ev |-> "ResetIn", p |-> TName(T)]) /\ UNCHANGED <<stalled, held, gone>>
